@@ -470,6 +470,9 @@ package task
 // 4 vars of the include statement, 5 vars of the included Taskfile, 6 vars passed in the call, 7 task vars.
 // Every source is merged with Vars.Set (an existing key is overwritten), so the order IS the precedence.
 //@ ghost var layer int scratch
+// A value marked live (CLI_ARGS: the arguments after --) is data: it never goes through the template engine.
+//@ func (*Compiler).getVariables$1$1
+//@   site templater.ReplaceVar#1 requires arg0.Live == nil                                                     [C19]
 //@ func (*Compiler).getVariables
 //@   init layer := 0
 //@   site env.GetEnviron#1 requires layer == 0                                                                [C10]
